@@ -74,10 +74,10 @@ CHECKS = {
 
 # clauses added in round 3 (after the third round of seeded changes), appended to the level text
 EXTRA = {
- "C05": " Also: req.Decode returns nil only if every requested part was filled from the stream (decoder completeness, shared with C13.1; scanner and complete-read forms); the reply is never written under a connection deadline armed before the request was read or the callback ran; the decode loop calls Scan() only while a part is missing.",
- "C06": " Also: request fields are used only after the JSON decode of the request succeeded; the session key is this instance's own CSPRNG output (rule instance shared with C07.1); the AEAD.Open nonce-length precondition (found and repaired: F10) and the expiry window of the session check (rule instance shared with C07.4).",
+ "C05": " Also: req.Decode returns nil only if every requested part was filled from the stream (decoder completeness, shared with C13.1; scanner and complete-read forms); the reply is never written under a connection deadline armed before the request was read or the callback ran; the decode loop calls Scan() only while a part is missing. Round 5: each request field handed to the callback is the corresponding part of the message exactly as the frame decoder produced it (C05.8, rule instance shared with C13.2).",
+ "C06": " Also: request fields are used only after the JSON decode of the request succeeded; the session key is this instance's own CSPRNG output (rule instance shared with C07.1); the AEAD.Open nonce-length precondition (found and repaired: F10) and the expiry window of the session check (rule instance shared with C07.4). Round 5: the admin flag a login is answered with is Dir.Authenticate's result of that very request — the dispatcher's s.authenticate returns results 0..4 of its own call, nothing remembered (C06.10, rule instance shared with C04.1).",
  "C07": " Also: on every path into AEAD.Open the nonce length is known to equal NonceSize() (found and repaired: F10).",
- "C11": " Also: every registered web route is answered by its own handler: no layer of the handler chain (library wrappers and module middlewares, read from their SSA) runs the wrapped handler in a goroutine of its own or writes before it; no frontend abandons a store request.",
+ "C11": " Also: every registered web route is answered by its own handler: no layer of the handler chain (library wrappers and module middlewares, read from their SSA) runs the wrapped handler in a goroutine of its own or writes before it; no frontend abandons a store request. Round 5: an authenticate answer is Dir.Authenticate's answer of the dispatcher turn that serves the request (C11.6, rule instance shared with C04.1): no verdict, admin flag or timestamp from an earlier turn.",
  "C13": " Also: C13.4 (Go/C byte agreement) is evaluated by this check through pamcheck; the encoder in its per-part-Write or its one-buffer-one-Write form; request field order on both sides; every decoding entry point (Decode, Unmarshal) either delegates to Decode over the whole input or is itself subject to the decode rules; Scan() only while a part is missing.",
  "C14": " Also: nothing writes the HMAC key buffer that scryptauth.New retains (retention read from the dependency's SSA; whole-buffer copies followed); scrypt Generate as Gen or as fresh-salt + Hash; the KDF's password operand is unwritten when the KDF runs.",
  "C01": " Also: the byte copy of the password handed to a KDF is unwritten when the KDF runs.",
@@ -85,6 +85,8 @@ EXTRA = {
  "C03": " Also: the only directory the module creates is <base>/.tmp, and a recursive MkdirAll of it runs only where the base directory is already known to exist on that path (otherwise it would create <base> and its missing ancestors).",
  "C09": " Also: a directory created on the path of a durable operation has its entry flushed (plain Mkdir + fsync of the holding directory on every success exit); a recursive MkdirAll is not allowed there except for the scratch directory <base>/.tmp below a base directory known to exist.",
  "C18": " Also: no type below the decoded configuration root re-decodes itself through yaml.Node.Decode (which drops KnownFields) and there is no inline map; integer divisions on the loader path have divisors known non-zero.",
+ "C12": " Round 5: an upgrade rewrites the first line only — the rest of the record is copied verbatim behind it on every path to the committing rename (C12.6, rule instance shared with C08.3/C15.4).",
+ "C16": " Round 5: the command table may name its actions directly or through a module wrapper layer (a closure that obtains the checked store and hands it to the wrapped action, which may use no other store).",
  "C20": " Also: loop progress — every iteration of the transfer loops that goes round again has transferred a non-zero count (found and repaired: F11, spin on a stale errno after an early close); the request may be assembled in a local buffer and written once — the buffer's bytes at the write are decided (C20.3), copies are bounds-proved (C20.2).",
 }
 
